@@ -27,7 +27,7 @@ CONFIG = dict(
     translators=[],
     props_files=["Sky/Props/C14.lean"],
     model_files=["Sky/C14/Spec.lean", "Sky/C14/Lemmas.lean", "Sky/Crypto/Secp256k1.lean", "Sky/C14/Drv.lean", "Sky/C10/ECDSA.lean"],
-    min_ops={"quick": 700, "thorough": 8000},
+    min_ops={"quick": 600, "thorough": 7000},
     trusted_base=[
         "Lean 4.33.0 kernel; axioms allowed: propext, Classical.choice, Quot.sound (audited by #print axioms)",
         "Sky/Crypto/Secp256k1.lean: the textbook implementation IS the specification (constants cross-checked by curve_consts, G_on_curve, order_G)",
